@@ -62,6 +62,26 @@ def check(prog, run):
                               % (kname, p.value[0], kname), file, line_keys, "pyscsi.utils.enum:Enum.keys")
             else:
                 run.ok("keys-are-supplied-names", c)
+    # name kinds: a supplied name is a key whatever it looks like (names starting with a double underscore are
+    # reserved by the implementation -- type() adds __module__ etc. -- and are not part of the contract)
+    name_kinds = ["plain", "UPPER_CASE", "_leading_underscore", "_X", "trailing_", "trailing__", "inner__double", "a", "with9digits", "keys_", "add_"]
+    for nm in name_kinds:
+        for form in ("dict", "kwargs"):
+            def tn(nm=nm, form=form):
+                if form == "dict":
+                    e = I.instantiate(ecls, [{"first": 1, nm: 5, "last": 2}], {}, None, _F())
+                else:
+                    e = I.instantiate(ecls, [], {"first": 1, nm: 5, "last": 2}, None, _F())
+                return I.get_attr(e, "keys", None, _F()), I.get_item(e, 5, None, _F())
+            p = ev(tn, "name %s" % nm)
+            c = "Enum.keys name kind %r" % nm
+            if p.returned and p.value[0] == ["first", nm, "last"] and p.value[1] == nm:
+                run.ok("keys-are-supplied-names", "%s (%s form)" % (c, form))
+            else:
+                run.violation("keys-are-supplied-names", c,
+                              "an enumeration built with the name %r reports keys %r and reverse lookup %r"
+                              % (nm, p.value[0] if p.returned else p.raised.describe(), p.value[1] if p.returned else None),
+                              file, line_keys, "pyscsi.utils.enum:Enum.keys")
     # constructor refusals
     nsae = prog.cls("pyscsi.utils.exception", "NotSupportedArgumentError")
     for label, a, k in (("no arguments", [], {}), ("a list", [[1, 2]], {}), ("two mappings", [{"a": 1}, {"b": 2}], {})):
